@@ -50,6 +50,7 @@ class Decorator:
     def __init__(self, rnd, names=('x', 'y'), simple_tests=0.8, closure_bias=False, balanced_exc=False, contexts=None, init=0.7, obj_rate=0.25):
         self.init = init
         self.objects = (mp.CONTEXTS if contexts is None else contexts) and rnd.random() < obj_rate
+        self.lists = (mp.CONTEXTS if contexts is None else contexts) and rnd.random() < 0.2
         self.contexts = mp.CONTEXTS if contexts is None else contexts
         self.cx = mp.Contexts(rnd, names)
         self.pexc = 0.5 if balanced_exc else 0.85      # probability of class E1 for raise statements and handlers
@@ -95,7 +96,7 @@ class Decorator:
         body = self.block(b, 1, scope)
         if self.pos != len(toks):
             raise common.MachineryError('skeleton not consumed: %r' % (toks,))
-        b.fns[0]['body'] = mp.initial_assignments(b, self.r, self.names, self.init, self.cx, self.objects) + body
+        b.fns[0]['body'] = mp.initial_assignments(b, self.r, self.names, self.init, self.cx, self.objects, self.lists) + body
         return b.finish()
 
     def _reads_of(self, b, e):
@@ -129,6 +130,8 @@ class Decorator:
             q = r.random()
             if self.objects and r.random() < 0.15:
                 return self.cx.object_stmt(b, fn, scope, b.T(self.reads(b, scope)))
+            if self.lists and fn == 1 and r.random() < 0.2:
+                return self.cx.list_stmt(b, fn, scope, b.T(self.reads(b, scope)))
             if self.contexts and r.random() < 0.08:
                 if self.cx.callable_lams(b, fn) and r.random() < 0.6:
                     return self.cx.lambda_call(b, fn, scope, allow_return=False)
